@@ -101,6 +101,12 @@ SetParent(c, p) ==
 
 Held(e) == \E t \in Th : own[e][t] > 0
 
+(* AutoDespawnAppExt::setup_auto_despawn called again (the plugin and several App extension methods call it): no effect *)
+Resetup ==
+    /\ ~gc /\ nops < MaxOps
+    /\ UNCHANGED <<cnt, own, pend, chan, alive, parent, gc, must, killedWhileHeld, missed>>
+    /\ Bump /\ Log("setup", "m", 0)
+
 GcStart ==
     /\ ~gc /\ nops < MaxOps
     /\ gc' = TRUE
@@ -136,7 +142,7 @@ Next ==
     \/ \E t \in Th, e \in Ent : Clone(t, e) \/ DropDec(t, e) \/ DropSend(t, e)
     \/ \E t \in Th, t2 \in Th, e \in Ent : Move(t, t2, e)
     \/ \E p \in Ent : SetParent(Child, p)
-    \/ GcStart \/ GcRecv \/ GcEnd
+    \/ GcStart \/ GcRecv \/ GcEnd \/ Resetup
 
 Spec == Init /\ [][Next]_vars
 
